@@ -811,11 +811,9 @@ func (c *Ctx) dischargeNil(s *PanicSite, depth int) (bool, string) {
 	}
 	// field of an element of a parameter list: every caller passes a list whose elements carry a fresh pointer there
 	if pe.K == "field" && pe.Args[0].K == "elem" && pe.Args[0].Args[0].K == "param" && depth < 3 && s.Fn.Parent() == nil {
-		callers := c.callersOrImplCallers(s.Fn)
-		okAll := len(callers) > 0
-		for _, cs := range callers {
-			co := c.P.OriginsOf(cs.Parent())
-			argEx := co.Enter(s.Fn, cs).Of(paramByName(s.Fn, pe.Args[0].Args[0].S))
+		rows, okAll := c.argsAtCallers(s.Fn, []string{pe.Args[0].Args[0].S}, 0)
+		for _, row := range rows {
+			argEx := row[0].Ex
 			el := c.elementExpr(argEx)
 			if el == nil {
 				okAll = false
@@ -837,6 +835,49 @@ func (c *Ctx) dischargeNil(s *PanicSite, depth int) (bool, string) {
 
 var _ = constant.MakeInt64
 var _ = sort.Strings
+
+// argAt is an argument expression at a call site together with the provenance context of the calling function.
+type argAt struct {
+	Ex *Ex
+	O  *Origins
+}
+
+// argsAtCallers resolves, for every call site of fn, the arguments bound to the named parameters. A caller
+// that merely hands its own parameters on (a pass-through helper) is replaced by its own callers, up to
+// three levels. ok is false when fn has no caller in the module.
+func (c *Ctx) argsAtCallers(fn *ssa.Function, names []string, depth int) (out [][]argAt, ok bool) {
+	callers := c.callersOrImplCallers(fn)
+	if len(callers) == 0 {
+		return nil, false
+	}
+	for _, cs := range callers {
+		co := c.P.OriginsOf(cs.Parent())
+		en := co.Enter(fn, cs)
+		row := make([]argAt, len(names))
+		allParam := true
+		var upNames []string
+		for i, n := range names {
+			prm := paramByName(fn, n)
+			if prm == nil {
+				return nil, false
+			}
+			row[i] = argAt{en.Of(prm), co}
+			if row[i].Ex.K != "param" {
+				allParam = false
+			} else {
+				upNames = append(upNames, row[i].Ex.S)
+			}
+		}
+		if allParam && depth < 3 && cs.Parent().Parent() == nil && cs.Parent() != fn {
+			if up, ok2 := c.argsAtCallers(cs.Parent(), upNames, depth+1); ok2 {
+				out = append(out, up...)
+				continue
+			}
+		}
+		out = append(out, row)
+	}
+	return out, true
+}
 
 func paramByName(f *ssa.Function, name string) *ssa.Parameter {
 	for _, p := range f.Params {
@@ -952,11 +993,12 @@ func (c *Ctx) equalLenAtCallers(s *PanicSite, o *Origins, l *Loop) (bool, string
 	if len(callers) == 0 {
 		return false, ""
 	}
-	for _, cs := range callers {
-		co := c.P.OriginsOf(cs.Parent())
-		en := co.Enter(s.Fn, cs)
-		ax, ay := en.Of(paramByName(s.Fn, xe.S)), en.Of(paramByName(s.Fn, ye.S))
-		lx, ly := c.lenExprOf(ax, co), c.lenExprOf(ay, co)
+	rows, ok := c.argsAtCallers(s.Fn, []string{xe.S, ye.S}, 0)
+	if !ok {
+		return false, ""
+	}
+	for _, row := range rows {
+		lx, ly := c.lenExprOf(row[0].Ex, row[0].O), c.lenExprOf(row[1].Ex, row[1].O)
 		if lx == "" || lx != ly {
 			return false, ""
 		}
